@@ -49,6 +49,7 @@ fn handle(req: &J) -> J {
     "session" => session::run(req),
     "parse" => syntaxmode::run_parse(req),
     "format" => syntaxmode::run_format(req),
+    "parseseq" => syntaxmode::run_parse_seq(req),
     "bytecode" => bytecode::run(req),
     "bytes" => bytecode::run_bytes(req),
     "ctx" => bytecode::run_ctx(req),
